@@ -32,6 +32,7 @@ REQUIRED = [
     'EdbVerif.C05.C05_no_drop_live', 'EdbVerif.C05.C05_layout_decisions',
     'EdbVerif.C05.C05_rename_dunder_counterexample', 'EdbVerif.C05.C05_setexpr_cardinality_counterexample',
     'EdbVerif.C05.C05_resetexpr_lprops_counterexample',
+    'EdbVerif.C05.C05_lprop_named_source_counterexample', 'EdbVerif.C05.C05_lprop_named_target_counterexample',
 ]
 
 MODALIASES = {None: 'default'}
@@ -337,6 +338,14 @@ class Ids:
             return f'd{self.name(s)}'
         return f'p{self.name(s)}'
 
+    def lname(self, s):
+        """link property names: `source` / `target` keep their identity (the code special-cases them)"""
+        if s == 'source':
+            return 's'
+        if s == 'target':
+            return 't'
+        return str(self.name(s))
+
     def table(self, t):
         u = t[1]
         k = self.kinds.get(u)
@@ -381,7 +390,7 @@ def create_ptr_cmds(ids, pid, d):
     out = [f"cp {ids.id(pid)} {src} {d['kind']} {ids.pname(d['name'])} "
            f"{b01(d['single'])} {b01(d['required'])} {b01(d['computed'])}"]
     for lp, l in sorted(d['lprops'].items(), key=lambda kv: ids.id(kv[0])):
-        out.append(f"al {ids.id(pid)} {ids.id(lp)} {ids.name(l['name'])} {b01(l['computed'])}")
+        out.append(f"al {ids.id(pid)} {ids.id(lp)} {ids.lname(l['name'])} {b01(l['computed'])}")
     return out
 
 
@@ -439,11 +448,11 @@ def diff_cmds(ids: Ids, a0, a1):
             cmds.append(f'dl {i} {ids.id(lp)}')
         for lp in sorted(set(n['lprops']) - set(o['lprops']), key=by_id):
             l = n['lprops'][lp]
-            cmds.append(f"al {i} {ids.id(lp)} {ids.name(l['name'])} {b01(l['computed'])}")
+            cmds.append(f"al {i} {ids.id(lp)} {ids.lname(l['name'])} {b01(l['computed'])}")
         for lp in sorted(set(n['lprops']) & set(o['lprops']), key=by_id):
             lo, ln = o['lprops'][lp], n['lprops'][lp]
             if lo['name'] != ln['name']:
-                cmds.append(f"rl {i} {ids.id(lp)} {ids.name(ln['name'])}")
+                cmds.append(f"rl {i} {ids.id(lp)} {ids.lname(ln['name'])}")
             if lo['computed'] != ln['computed']:
                 cmds.append(f"cl {i} {ids.id(lp)} {b01(ln['computed'])}")
         cmds += post
@@ -456,7 +465,7 @@ def alpha_canon(ids: Ids, a):
                    for t, d in a['types'].items())
     ps = frozenset((ids.id(p), None if d['src'] is None else ids.id(d['src']), d['kind'], ids.pname(d['name']),
                     d['single'], d['required'], d['computed'],
-                    frozenset((ids.id(lp), ids.name(l['name']), l['computed']) for lp, l in d['lprops'].items()))
+                    frozenset((ids.id(lp), ids.lname(l['name']), l['computed']) for lp, l in d['lprops'].items()))
                    for p, d in a['ptrs'].items())
     return ts, ps
 
@@ -485,7 +494,7 @@ def parse_schema(s):
         if not x:
             continue
         f = x[1:].split(':')
-        lps = frozenset((int(l.split('/')[0]), int(l.split('/')[1]), l.split('/')[2] == '1')
+        lps = frozenset((int(l.split('/')[0]), l.split('/')[1], l.split('/')[2] == '1')
                         for l in f[7].split(',') if l)
         ps.add((int(f[0]), None if f[1] == '-' else int(f[1]), f[2], f[3], f[4] == '1', f[5] == '1',
                 f[6] == '1', lps))
@@ -515,6 +524,112 @@ def cat_diff(got, want):
     return '+'.join(sorted(kinds)), detail
 
 
+# ===================================================================== special names
+SCAN_FILES = ['edb/pgsql/delta.py', 'edb/pgsql/types.py', 'edb/pgsql/common.py', 'edb/schema/pointers.py',
+              'edb/schema/links.py', 'edb/schema/properties.py']
+_SPECIAL = None
+
+
+def special_names():
+    """Pointer names the storage code special-cases, found by an AST scan of the anchored
+    files: string literals compared (`==`, `!=`, `in`, `not in`) with an expression that
+    mentions a name (`.name`, `shortname`, `propname`, `ptr_name`, …), and literal
+    prefixes/suffixes given to `.startswith/.endswith` of such an expression.
+    Returns (exact names, prefixes, suffixes, {name: [file:line]})."""
+    global _SPECIAL
+    if _SPECIAL is not None:
+        return _SPECIAL
+    import ast
+    import os
+
+    def strs(node):
+        if isinstance(node, ast.Constant) and isinstance(node.value, str):
+            return [node.value]
+        if isinstance(node, (ast.Set, ast.Tuple, ast.List)):
+            out = []
+            for e in node.elts:
+                v = strs(e)
+                if v is None:
+                    return None
+                out += v
+            return out
+        return None
+
+    def namey(node):
+        src = ast.unparse(node).lower()
+        if any(k in src for k in ('module', 'field', 'classname', 'name[0]')):
+            return False
+        return 'name' in src
+
+    exact, pre, suf, where = set(), set(), set(), {}
+    ident = re.compile(r'^[A-Za-z_][A-Za-z0-9_]*$')
+    for f in SCAN_FILES:
+        path = os.path.join(core.REPO, f)
+        tree = ast.parse(open(path).read())
+        for n in ast.walk(tree):
+            if isinstance(n, ast.Compare):
+                sides = [n.left] + list(n.comparators)
+                for i, sd in enumerate(sides):
+                    v = strs(sd)
+                    if v is None:
+                        continue
+                    if any(namey(o) for j, o in enumerate(sides) if j != i):
+                        for x in v:
+                            x = x.split('::')[-1]
+                            if ident.match(x):
+                                exact.add(x)
+                                where.setdefault(x, []).append(f'{f}:{n.lineno}')
+            elif (isinstance(n, ast.Call) and isinstance(n.func, ast.Attribute)
+                  and n.func.attr in ('startswith', 'endswith') and n.args):
+                v = strs(n.args[0])
+                if v and namey(n.func.value):
+                    for x in v:
+                        if re.match(r'^[A-Za-z0-9_]+$', x):
+                            (pre if n.func.attr == 'startswith' else suf).add(x)
+                            where.setdefault(('^' if n.func.attr == 'startswith' else '$') + x, []).append(
+                                f'{f}:{n.lineno}')
+    _SPECIAL = (sorted(exact), sorted(pre), sorted(suf), where)
+    return _SPECIAL
+
+
+def bq(name):
+    """backtick-quote a pointer name"""
+    return '`' + name + '`'
+
+
+def special_histories():
+    """one deterministic history per special name N: N as a property (single/multi, required,
+    own and inherited), as a link with a link property N, through cardinality changes and drops"""
+    exact, pre, suf, _ = special_names()
+    names = list(exact) + [p + 'sp' for p in pre] + ['sp' + x for x in suf]
+    out = []
+    for n in names:
+        N = bq(n)
+        out.append((f'special-name:{n}', [
+            f'create type SA {{ create property {N} -> str; }}',
+            'create type SB extending SA',
+            f'alter type SA alter property {N} set multi',
+            f'alter type SA alter property {N} set single using (select .{N} limit 1)',
+            f"alter type SA alter property {N} set required using ('x')",
+            'drop type SB',
+            f'alter type SA drop property {N}',
+            f'alter type SA create required multi property {N} -> str',
+            'create type SC extending SA',
+            f'alter type SC alter property {N} set optional',
+            f'alter type SA drop property {N}',
+            f'alter type SA create link {N} -> SA {{ create property {N} -> str; }}',
+            f'alter type SA alter link {N} set multi',
+            f'alter type SA alter link {N} create property sp_q -> str',
+            f'alter type SA alter link {N} drop property {N}',
+            f'alter type SA alter link {N} set single using (select .{N} limit 1)',
+            f'alter type SA alter link {N} drop property sp_q',
+            'create type SD { create link other -> SA { create property %s -> str; create property sp_r -> str; }; }' % N,
+            f'alter type SD alter link other drop property sp_r',
+            f'alter type SD alter link other drop property {N}',
+        ]))
+    return out
+
+
 # ===================================================================== generator
 class Gen:
     """random DDL over the alphabet of the property, driven by the current real schema"""
@@ -528,14 +643,25 @@ class Gen:
         ('abslink_add_prop', 3), ('abslink_drop_prop', 3), ('drop_abslink', 2),
     ]
 
-    def __init__(self, rng, risky=0.0):
+    def __init__(self, rng, risky=0.0, special=0.2):
         self.rng = rng
         self.n = 0
         self.risky = risky       # probability of the variants that hit the known findings
+        self.special = special   # probability that a new pointer gets a special-cased name
+        exact, pre, suf, _ = special_names()
+        self.pool = [('=', x) for x in exact if x not in ('id',) and not (x.startswith('__') and x.endswith('__'))] \
+            + [('^', x) for x in pre] + [('$', x) for x in suf]
 
     def fresh(self, pfx):
+        """a new name; pointer / link-property names come back backtick-quoted and are, with
+        probability `special`, one of the names the storage code special-cases"""
         self.n += 1
-        return f'{pfx}{self.n}'
+        if pfx in ('T', 'R', 'al'):
+            return f'{pfx}{self.n}'
+        if pfx != '__d' and self.pool and self.rng.random() < self.special:
+            k, x = self.rng.choice(self.pool)
+            return bq(x if k == '=' else (f'{x}s{self.n}' if k == '^' else f's{self.n}{x}'))
+        return bq(f'{pfx}{self.n}')
 
     @staticmethod
     def tname(a, tid):
@@ -601,7 +727,7 @@ class Gen:
 
         def pref(pid, d):
             kw = 'link' if d['kind'] == 'L' else 'property'
-            return f"alter type {self.tname(a, d['src'])} alter {kw} {d['name']}"
+            return f"alter type {self.tname(a, d['src'])} alter {kw} {bq(d['name'])}"
 
         if k == 'create_type':
             t = self.fresh('T')
@@ -631,7 +757,7 @@ class Gen:
         if k == 'drop_ptr' and owned:
             pid, d = r.choice(owned)
             kw = 'link' if d['kind'] == 'L' else 'property'
-            return f"alter type {self.tname(a, d['src'])} drop {kw} {d['name']}"
+            return f"alter type {self.tname(a, d['src'])} drop {kw} {bq(d['name'])}"
         if k == 'rename_ptr' and owned:
             pid, d = r.choice(owned)
             if r.random() < self.risky:
@@ -645,7 +771,7 @@ class Gen:
             c = [(p, d) for p, d in owned if not d['single'] and not d['computed']]
             if c:
                 pid, d = r.choice(c)
-                return pref(pid, d) + f" set single using (select .{d['name']} limit 1)"
+                return pref(pid, d) + f" set single using (select .{bq(d['name'])} limit 1)"
         if k == 'set_required':
             c = [(p, d) for p, d in owned if not d['required'] and not d['computed']]
             if c:
@@ -685,20 +811,20 @@ class Gen:
                                                                             key=lambda kv: kv[1]['name'])]
         if k == 'drop_lprop' and lps:
             pid, d, lpid, lp = r.choice(lps)
-            return pref(pid, d) + f" drop property {lp['name']}"
+            return pref(pid, d) + f" drop property {bq(lp['name'])}"
         if k == 'rename_lprop' and lps:
             pid, d, lpid, lp = r.choice(lps)
-            return pref(pid, d) + f" alter property {lp['name']} rename to {self.fresh('rq')}"
+            return pref(pid, d) + f" alter property {bq(lp['name'])} rename to {self.fresh('rq')}"
         if k == 'lprop_set_expr':
             c = [x for x in lps if not x[3]['computed']]
             if c:
                 pid, d, lpid, lp = r.choice(c)
-                return pref(pid, d) + f" alter property {lp['name']} using ('z')"
+                return pref(pid, d) + f" alter property {bq(lp['name'])} using ('z')"
         if k == 'lprop_reset_expr':
             c = [x for x in lps if x[3]['computed']]
             if c:
                 pid, d, lpid, lp = r.choice(c)
-                return pref(pid, d) + f" alter property {lp['name']} reset expression"
+                return pref(pid, d) + f" alter property {bq(lp['name'])} reset expression"
         if k == 'add_base' and len(tids) >= 2:
             t, b = r.sample(tids, 2)
             return f'alter type {self.tname(a, t)} extending {self.tname(a, b)}'
@@ -726,7 +852,7 @@ class Gen:
                  for lp in d['lprops'].values()]
             if c:
                 l, q = r.choice(sorted(c))
-                return f'alter abstract link {l} drop property {q}'
+                return f'alter abstract link {l} drop property {bq(q)}'
         if k == 'drop_abslink' and abslinks:
             return f'drop abstract link {r.choice(abslinks)}'
         return None
@@ -797,6 +923,11 @@ FIXED = [
                                                    'alter type A alter property __foo rename to __bar']),
     ('FINDING-link-with-lprops-stored-again', BASE_AB + [
         'alter type B alter link as_ using (select A)', 'alter type B alter link as_ reset expression']),
+    ('FINDING-abstract-link-property-named-source', [
+        'create abstract link fal { create property `source` -> str }',
+        'alter abstract link fal drop property `source`']),
+    ('FINDING-abstract-link-property-named-target', [
+        'create abstract link fal { create property `target` -> str }']),
 ]
 
 
@@ -818,6 +949,13 @@ type S {
   link lal extending al0 -> Tgt; multi link lalm extending al0 -> Tgt; link lal1 extending al1 -> Tgt;
   link __dl -> Tgt { property q7 -> str; };
 };
+type Nm {
+  property source -> str; multi property target -> str; property sp_t -> str;
+  link `default` -> Tgt { property id -> str; property __lp -> str; };
+  multi link expr -> Tgt { property cfg -> str; };
+};
+type Nm2 { link source -> Tgt; multi link target -> Tgt { property q9 -> str; }; };
+type NmSub extending Nm; type Nm2Sub extending Nm2;
 type Sub extending S { overloaded link ls -> Tgt { property q8 -> str; }; };
 abstract type AbsT { multi link am -> Tgt; property apz -> str; };
 '''
@@ -981,7 +1119,7 @@ def run_history(R: Real, hid, name, stmts_or_gen, ncmds, lines, recs, stats, tea
                 if not queue:
                     phase = 'teardown-init'
                     continue
-                template, text = 'fixed', queue.pop(0)
+                template, text = ('special-name' if name.startswith('special-name') else 'fixed'), queue.pop(0)
             else:
                 if nmain >= ncmds:
                     phase = 'teardown-init'
@@ -1065,7 +1203,9 @@ def run_history(R: Real, hid, name, stmts_or_gen, ncmds, lines, recs, stats, tea
 
 
 UNSAFE_KEYS = {'rp': 'rename-changes-column-key', 'se': 'property-made-computed-with-cardinality-change',
-               're': 'link-with-link-properties-made-stored-again'}
+               're': 'link-with-link-properties-made-stored-again',
+               'al': 'link-property-named-source-or-target', 'rl': 'link-property-named-source-or-target',
+               'dl': 'link-property-named-source-or-target', 'cl': 'link-property-named-source-or-target'}
 
 
 def run(ctx: core.Ctx):
@@ -1098,7 +1238,7 @@ def run(ctx: core.Ctx):
                 run_history(R, hid, 'replay', list(d['history']), 0, lines, recs, stats, teardown=False)
                 hid += 1
     else:
-        for name, stmts in FIXED:
+        for name, stmts in FIXED + special_histories():
             run_history(R, hid, name, list(stmts), 0, lines, recs, stats, teardown=not name.startswith('FINDING'))
             hid += 1
         nh = ctx.budget(40, 1000)
@@ -1151,6 +1291,10 @@ def run(ctx: core.Ctx):
         m_schema = parse_schema(parts[2])
         res = out[r['first']:r['first'] + len(r['cmds'])]
         if r['kind'] == 'resync':
+            if any(x.endswith(' u') for x in res):
+                # the real schema is in a state the guarded model cannot be rebuilt into faithfully
+                hist_corr_reported.add(r['hid'])
+                continue
             if m_cat != r['exp'] or m_schema != r['alpha'] or any(not x.startswith('ok') for x in res):
                 ctx.fail(f'corr:resync:{r["hid"]}', 'model rebuilt from the real schema differs from the real layout',
                          {'model': parts, 'real': {k: sorted(v) for k, v in r['exp'].items()}, 'results': res},
@@ -1179,7 +1323,7 @@ def run(ctx: core.Ctx):
             what = '+'.join(problems)
             mismatch_kinds[what] = mismatch_kinds.get(what, 0) + 1
             if unsafe:
-                key = 'oracle:' + '+'.join(UNSAFE_KEYS.get(u, u) for u in unsafe)
+                key = 'oracle:' + '+'.join(sorted({UNSAFE_KEYS.get(u, u) for u in unsafe}))
             else:
                 key = f'oracle:{r["template"]}:{what}'
             ctx.fail(key, 'storage after the statement is not what the query compiler addresses: ' + what,
@@ -1235,7 +1379,12 @@ def run(ctx: core.Ctx):
                 'elementary model commands, multiset of storage op kinds); non-trivial = accepted by the real code',
         'samples': samples,
         'histories': hid,
-        'fixed_histories': len(FIXED) if not ctx.replay else 0,
+        'fixed_histories': (len(FIXED) + len(special_histories())) if not ctx.replay else 0,
+        'special_names_scanned': {'exact': special_names()[0], 'prefixes': special_names()[1],
+                                  'suffixes': special_names()[2],
+                                  'where': {str(k): v[:4] for k, v in special_names()[3].items()}},
+        'statements_with_special_names': sum(1 for r in recs if r['kind'] == 'step' and any(
+            bq(x) in r['text'] for x in special_names()[0])),
         'template_histogram': stats['templates'],
         'storage_op_histogram': stats['ops'],
         'rejected_by_real_code': stats['rejected'],
